@@ -345,4 +345,39 @@ theorem p2pSched_congr (w : World (Posted α)) (a1 a2 : List (Env α)) (c1 c2 : 
           exact complete_perm pairs hin hdis (hc r) p.buf rfl
       · rw [if_neg hm, if_neg hm]
 
+/-- blocking receive loops (`MPI_Recv` one after the other): the completion order is the posted order in both
+    runs; only the arrival order differs, and no condition on the buffer regions is needed -/
+theorem p2pSched_congr_arrival (w : World (Posted α)) (a1 a2 : List (Env α)) (c : Nat → List Nat)
+    (hf : FifoEq a1 a2) : p2pSched a1 c w = p2pSched a2 c w := by
+  unfold p2pSched
+  apply allSome_congr
+  apply List.ext_getElem?
+  intro r
+  simp only [List.getElem?_mapIdx]
+  cases hp : w[r]? with
+  | none => rfl
+  | some p =>
+    simp only [Option.map_some]
+    congr 1
+    by_cases hs : p.status ≠ Comm.Status.ok
+    · rw [if_pos hs, if_pos hs]
+    · rw [if_neg hs, if_neg hs]
+      by_cases hm : p.msgs.all (sendMatched w (r : Int)) = true
+      · rw [if_pos hm, if_pos hm]
+        congr 1
+        unfold recvSched
+        rw [matchRecvs_congr p.rcvs (mailbox a1 r) (mailbox a2 r) (hf r)]
+      · rw [if_neg hm, if_neg hm]
+
+theorem postAll_sublist {β : Type} (ty : RefType) (maxTag : Int) (tagOf : β → Int) :
+    ∀ (xs : List β), (postAll ty maxTag tagOf xs).2.Sublist xs
+  | [] => by simp [postAll]
+  | x :: xs => by
+    unfold postAll
+    split
+    · exact List.nil_sublist _
+    · split
+      · exact List.nil_sublist _
+      · exact (postAll_sublist ty maxTag tagOf xs).cons₂ x
+
 end Refine.Model.ReproSched
